@@ -195,6 +195,12 @@ Theorem C04_source_tie_visitor : forall M n,
 Proof. exact ev_tie_visitor. Qed.
 Print Assumptions C04_source_tie_visitor.
 
+(* the untranslated parts (constructors: max = 1 << bits; __call__, the getattr dispatch _visit, _visit_expr) still have
+   the source text whose digest is recorded in the translator *)
+Theorem C04_source_tie_untranslated_pinned : src_pin_base = true /\ src_pin_ev = true.
+Proof. exact ev_pins. Qed.
+Print Assumptions C04_source_tie_untranslated_pinned.
+
 (* Non-vacuity *)
 Example C04_ex_parse :
   parse_string 0 [110;37;49;48;61;61;49;32;63;32;48;32;58;32;49]%N   (* "n%10==1 ? 0 : 1" *)
